@@ -28,6 +28,7 @@ RULE = ("case = (1-3 indicator configs standalone or in a Hexital with mixed tim
         "candles unchanged; (d) each look-ahead read the tracer observed is followed up by perturbing exactly that later candle. "
         "non-trivial: >= 3 snapshots and a closed prefix that reaches >= 3 candles past the first non-None reading. distinct: case digest.")
 ASSUMPTIONS = ["no lifespan trimming in this workload (C15 covers it)",
+               "Hexital-level gap filling is not combined with member timeframes here (recorded C08 finding, classified exactly there)",
                "tracer-directed perturbation (d) runs on the base timeframe only (positions are candle positions)"]
 
 
@@ -58,11 +59,32 @@ def gen_case(rng, tier, idx):
             cfgs.append(configs.rand_config(rng, max_period=12))
         # member timeframes: multiples of the hexital-level one (or of the stream step)
         for c in cfgs[1:]:
-            if rng.random() < 0.6:
+            # (Hexital-level fill + member timeframe + candles at construction is the recorded C08 finding - members seeded from the
+            #  already filled base - and would show up here as a live-vs-batch difference; C08 owns it, with an exact classifier)
+            if rng.random() < 0.6 and tfkind != "collapse_fill":
                 unit_s = tf_s or step
                 mult = rng.choice([2, 3, 5])
                 s = unit_s * mult
                 c["kw"]["timeframe"] = f"S{s}" if s % 60 else (f"T{s // 60}" if s % 3600 else f"H{s // 3600}")
+    if kind == "hexital" and rng.random() < 0.3:
+        # a member that reads another member's output, registered before or after its producer (a consumer listed first never sees
+        # its input on the newest candle: whatever it stores there must still be final)
+        prod = cfgs[0]
+        try:
+            pname = configs.build(prod).name
+            sample = configs.build(prod)
+            fieldname = pname
+            if prod["cls"] in ("MACD", "BBANDS", "KC", "STOCH", "Supertrend", "Donchian", "AROON", "ADX", "HighestLowest"):
+                fieldname = pname + "." + {"MACD": "MACD", "BBANDS": "BBM", "KC": "band", "STOCH": "k", "Supertrend": "trend", "Donchian": "DCM",
+                                           "AROON": "AROONOSC", "ADX": "ADX", "HighestLowest": "high"}[prod["cls"]]
+            if prod["cls"] != "Amorph" and "timeframe" not in prod["kw"]:
+                cons = {"cls": rng.choice(["SMA", "EMA", "WMA", "RMA", "StandardDeviation", "TSI"]), "kw": {"period": rng.choice([2, 3, 4]), "input_value": fieldname}}
+                if rng.random() < 0.5:
+                    cfgs.insert(0, cons)
+                else:
+                    cfgs.append(cons)
+        except Exception:
+            pass
     sch = schedules.rand_schedule(rng, n, bucket=(tf_s // step if tf_s else None))
     return {"kind": kind, "cfgs": cfgs, "rows": rows, "tf": tf, "fill": tfkind == "collapse_fill", "schedule": sch,
             "family": fam, "cut": rng.randint(max(1, n // 3), n - 2), "factor": rng.choice([1.37, 0.61, 2.0])}
@@ -213,6 +235,26 @@ def run_case(case):
                             break
             except Exception as e:
                 viol.append({"monitor": "perturbation-after-cut", "sig": f"C02|perturbed-batch-raises|{tag}|{tfk}", "detail": repr(e)[:300]})
+
+    # ---------------- (e) "whether it was computed live or in a batch over a longer list": live closed candles == batch over all rows
+    if full is not None and not viol and history:
+        pts = sorted(set([0, len(history) // 3, (2 * len(history)) // 3, len(history) - 1]))
+        for t in pts:
+            for name, (snap, coll) in history[t].items():
+                fs = full.get(name)
+                if fs is None:
+                    continue
+                pc = closed(snap, coll)
+                stats["live_vs_batch_candles_compared"] = stats.get("live_vs_batch_candles_compared", 0) + len(pc)
+                for i, a in enumerate(pc):
+                    if i >= len(fs[0]) or not same(a, fs[0][i]):
+                        viol.append({"monitor": "live-vs-longer-batch", "sig": f"C02|live-vs-batch|{tag}|{tfk}",
+                                     "detail": f"list {name!r}: closed candle {i} as computed live (after append {t}) {short(a, 300)} differs from a batch over the whole stream {short(fs[0][i] if i < len(fs[0]) else None, 300)}"})
+                        break
+                if viol:
+                    break
+            if viol:
+                break
 
     # ---------------- (d) tracer-directed single-candle perturbation (base timeframe only)
     if full is not None and not viol and not case["tf"] and case["kind"] == "indicator":
